@@ -13,7 +13,10 @@ The k awaited Deferreds ("slots") get a symbolic schedule: which fire before the
 which later and in which order, which never, success or failure each, and up to two symbolic points
 at which the returned Deferred is cancelled (the second one while the body, having observed the first
 cancelled Deferred's outcome, is suspended on a later await), with three canceller behaviours of the
-slots.  After every step
+slots.  Failures come in two classes, chosen symbolically: an Exception subclass (_Err) or a
+BaseException subclass that is not an Exception (_BErr), both for the awaited Deferreds' failures and
+for the exceptions the templates raise themselves (exception translation); the templates' handlers
+name _Err / CancelledError only, so a _BErr always escapes, in the reference as on twisted.  After every step
 the observation trace of the real run, the state of the returned Deferred and the cancel counters of
 all slots must be what the synchronous execution of the same template predicts.
 """
@@ -31,7 +34,8 @@ ENCODED = ["twisted.internet.defer:_inlineCallbacks", "twisted.internet.defer:_g
            "twisted.internet.defer:_addCancelCallbackToDeferred", "twisted.internet.defer:Deferred.__iter__",
            "twisted.internet.defer:ensureDeferred", "twisted.internet.defer:Deferred.fromCoroutine",
            "twisted.internet.defer:inlineCallbacks", "twisted.internet.defer:Deferred.cancel"]
-BOUNDS = {"quick": {"k": 3, "cm": 1, "c2full": 0}, "thorough": {"k": 5, "cm": 2, "c2full": 3}}
+BOUNDS = {"quick": {"k": 3, "cm": 1, "c2full": 0, "ekfull": 0},
+          "thorough": {"k": 5, "cm": 2, "c2full": 3, "ekfull": 2}}
 B = {}
 BOUNDS_TEXT = ("5 templates x generator/coroutine (nested template: 5 nesting flavours) = 13 programs; 1 <= k <= K "
                "awaited Deferreds; schedule = any sequence of distinct slots (others never fire), success or failure "
@@ -41,6 +45,11 @@ BOUNDS_TEXT = ("5 templates x generator/coroutine (nested template: 5 nesting fl
                "awaiting after a cancellation (try/except, try/finally, nested call: 9 programs), explored for "
                "schedules that fire all k slots with none pre-fired, canceller no-op (try/except), value-firing "
                "(nested call) or either (try/finally); thorough: additionally every schedule and canceller for k <= 3. "
+               "Exception class (ek): 0 = all failures are Exception subclasses; 1 = the awaited Deferreds fail with a "
+               "BaseException subclass that is not an Exception; 2 = the exceptions raised by the templates themselves "
+               "(try/except and nested-call programs) are of that class; ek >= 1 (harnesses program_b / program5_b) is "
+               "explored for runs without cancellation that contain a failing slot (thorough: also with cancellation "
+               "for k <= 2).  "
                "quick: K = 3.  thorough: K = 4 with all schedules, plus k = 5 with the slots fired in index order "
                "(any number of them, any pre-fired prefix, any outcomes, any cancellation point)")
 OUTSIDE = ["randomly structured programs: the program shape is one of 13 fixed templates, only data, schedule and "
@@ -62,6 +71,14 @@ class _Err(Exception):
         self.v = v
 
 
+class _BErr(BaseException):
+    """a failure that is NOT an Exception (like SystemExit / asyncio.CancelledError)"""
+
+    def __init__(self, v):
+        BaseException.__init__(self, v)
+        self.v = v
+
+
 class _Stop(BaseException):
     """raised by the synchronous reference when the program asks for a slot that has no outcome yet"""
 
@@ -74,7 +91,7 @@ DEF sub(ctx, i):
         v = AWAIT[i]
     except _Err as e:
         ctx.note(("sub-e", i, e.v))
-        raise _Err(e.v + 1000)
+        raise ctx.exc(e.v + 1000)
     ctx.note(("sub-v", i, v))
     return v + 1
 '''
@@ -113,6 +130,8 @@ DEF prog(ctx):
             v = AWAIT[i]
             out.append(("v", v))
         except _Err as e:
+            if e.v == 1:
+                raise ctx.exc(e.v + 2000)
             out.append(("e", e.v))
         except CancelledError:
             out.append(("c", i))
@@ -222,8 +241,9 @@ class _Slot(Deferred):
 
 
 class _RealCtx:
-    def __init__(self, k, cm):
+    def __init__(self, k, cm, exc):
         self.k = k
+        self.exc = exc          # class of the exceptions the templates raise themselves
         self.log = []
         self.ds = [_Slot(i, cm) for i in range(k)]
 
@@ -236,10 +256,11 @@ class _RealCtx:
 
 
 class _SyncCtx:
-    """outs[i]: None (no outcome yet) | ("ok", v) | ("err", v) | ("cancelled",)"""
+    """outs[i]: None (no outcome yet) | ("ok", v) | ("err", v) | ("berr", v) | ("cancelled",)"""
 
-    def __init__(self, k, outs):
+    def __init__(self, k, outs, exc):
         self.k = k
+        self.exc = exc
         self.outs = outs
         self.log = []
         self.stopped = None
@@ -256,6 +277,8 @@ class _SyncCtx:
             return o[1]
         if o[0] == "err":
             raise _Err(o[1])
+        if o[0] == "berr":
+            raise _BErr(o[1])
         raise CancelledError()
 
     def note(self, x):
@@ -263,13 +286,15 @@ class _SyncCtx:
             self.log.append(x)
 
 
-def _expect(tmpl, k, outs):
+def _expect(tmpl, k, outs, exc):
     """synchronous execution: (trace, final outcome or None if it blocks, slot it blocks on)"""
-    ctx = _SyncCtx(k, outs)
+    ctx = _SyncCtx(k, outs, exc)
     try:
         r = ("ok", _SYNC[tmpl](ctx))
     except _Err as e:
         r = ("err", ("E", e.v))
+    except _BErr as e:
+        r = ("err", ("B", e.v))
     except CancelledError:
         r = ("err", ("C",))
     except _Stop:
@@ -284,6 +309,8 @@ def _tag(f):
         return ("notfailure",)
     if isinstance(f.value, _Err):
         return ("E", f.value.v)
+    if isinstance(f.value, _BErr):
+        return ("B", f.value.v)
     if isinstance(f.value, CancelledError):
         return ("C",)
     return ("other", type(f.value).__name__)
@@ -310,7 +337,7 @@ def _c2_ok(tmpl, k, L, p, c, c2, cm):
     return p == 0 and L == k and (cm == 0 if tmpl == 2 else (cm == 1 if tmpl == 4 else True))
 
 
-def _run(tmpl, flav, k, L, os_, ss, p, c, c2, cm):
+def _run(tmpl, flav, k, L, os_, ss, p, c, c2, cm, ek):
     # ---- concretise every symbolic choice (one path per combination; the solver drives the split)
     tmpl = _pick(tmpl, 4)
     flav = _pick(flav, 4)
@@ -322,8 +349,11 @@ def _run(tmpl, flav, k, L, os_, ss, p, c, c2, cm):
     c = -1 if c < 0 else _pick(c, L - p)
     c2 = -1 if c2 < 0 else _pick(c2, L - p)
     cm = _pick(cm, B['cm'])
+    ek = _pick(ek, 2)
+    slot_exc = _BErr if ek == 1 else _Err       # class of the awaited Deferreds' failures
+    body_exc = _BErr if ek == 2 else _Err       # class of the exceptions raised by the templates
 
-    ctx = _RealCtx(k, cm)
+    ctx = _RealCtx(k, cm, body_exc)
     outs = [None] * k
     exp_ncancel = [0] * k
 
@@ -333,19 +363,22 @@ def _run(tmpl, flav, k, L, os_, ss, p, c, c2, cm):
             outs[i] = ("ok", 100 + i)
             ctx.ds[i].callback(100 + i)
         else:
-            outs[i] = ("err", i)
-            ctx.ds[i].errback(_Err(i))
+            outs[i] = ("berr" if ek == 1 else "err", i)
+            ctx.ds[i].errback(slot_exc(i))
 
     for j in range(p):
         fire(j)
     fin = []
-    res = _REAL[(tmpl, flav)](ctx)
+    try:
+        res = _REAL[(tmpl, flav)](ctx)
+    except (_Err, _BErr):
+        return False          # the call must return a (failed) Deferred, never raise the body's exception
     if not isinstance(res, Deferred):
         return False
     res.addCallbacks(lambda r: fin.append(("ok", r)), lambda f: fin.append(("err", _tag(f))))
 
     def agree():
-        elog, efin, _ = _expect(tmpl, k, outs)
+        elog, efin, _ = _expect(tmpl, k, outs, body_exc)
         if ctx.log != elog:
             return False
         if fin != ([] if efin is None else [efin]):
@@ -363,7 +396,7 @@ def _run(tmpl, flav, k, L, os_, ss, p, c, c2, cm):
         # cancel() of the returned Deferred: if the program is suspended, exactly the Deferred it is
         # waiting for is cancelled and the body sees that Deferred's outcome; the returned Deferred
         # fires only with the program's eventual outcome (agree() compares with the synchronous run)
-        _, efin, waiting = _expect(tmpl, k, outs)
+        _, efin, waiting = _expect(tmpl, k, outs, body_exc)
         res.cancel()
         if efin is None:
             ncancelled[0] += 1
@@ -389,6 +422,8 @@ def _run(tmpl, flav, k, L, os_, ss, p, c, c2, cm):
         cover("cancelled")
     if ncancelled[0] >= 2:
         cover("cancelled2")
+    if fin and fin[0][0] == "err" and fin[0][1][0] == "B":
+        cover("bexc")
     # (agree() held after the last step.)  Let a still suspended program run to its end: a suspended
     # generator with an await inside `finally` would complain at garbage collection; not part of the
     # checked behaviour
@@ -420,8 +455,9 @@ def program(tmpl: int, flav: int, k: int, L: int, o0: int, o1: int, o2: int,
     pre: (p < 2 or o0 < o1) and (p < 3 or o1 < o2)
     post: _
     """
-    # quick tier: the same scenario function with at most 3 slots (fewer symbolic parameters)
-    return _run(tmpl, flav, k, L, (o0, o1, o2), (s0, s1, s2), p, c, c2, cm)
+    # quick tier: the same scenario function with at most 3 slots (fewer symbolic parameters);
+    # all failures are Exception subclasses here, see program_b
+    return _run(tmpl, flav, k, L, (o0, o1, o2), (s0, s1, s2), p, c, c2, cm, 0)
 
 
 def program5(tmpl: int, flav: int, k: int, L: int, o0: int, o1: int, o2: int, o3: int, o4: int,
@@ -443,7 +479,52 @@ def program5(tmpl: int, flav: int, k: int, L: int, o0: int, o1: int, o2: int, o3
     pre: (p < 2 or o0 < o1) and (p < 3 or o1 < o2) and (p < 4 or o2 < o3) and (p < 5 or o3 < o4)
     post: _
     """
-    return _run(tmpl, flav, k, L, (o0, o1, o2, o3, o4), (s0, s1, s2, s3, s4), p, c, c2, cm)
+    return _run(tmpl, flav, k, L, (o0, o1, o2, o3, o4), (s0, s1, s2, s3, s4), p, c, c2, cm, 0)
+
+
+def program_b(tmpl: int, flav: int, k: int, L: int, o0: int, o1: int, o2: int,
+              s0: bool, s1: bool, s2: bool, p: int, ek: int) -> bool:
+    """
+    pre: 0 <= tmpl <= 4 and 0 <= flav <= (4 if tmpl == 4 else 1)
+    pre: 1 <= ek <= (2 if tmpl == 2 or tmpl == 4 else 1)
+    pre: 1 <= k <= 3 and k <= B['k'] and 1 <= L <= k and 0 <= p <= L
+    pre: (0 <= o0 < k) if L > 0 else (o0 == 0 and not s0)
+    pre: (0 <= o1 < k) if L > 1 else (o1 == 0 and not s1)
+    pre: (0 <= o2 < k) if L > 2 else (o2 == 0 and not s2)
+    pre: L < 2 or o1 != o0
+    pre: L < 3 or (o2 != o0 and o2 != o1)
+    pre: (p < 2 or o0 < o1) and (p < 3 or o1 < o2)
+    pre: (not s0) or (L > 1 and not s1) or (L > 2 and not s2)
+    post: _
+    """
+    # quick tier, failures that are not Exceptions (ek = 1: the awaited Deferreds' failures, ek = 2: the
+    # exceptions raised by the template itself); runs without cancellation containing a failing slot
+    return _run(tmpl, flav, k, L, (o0, o1, o2), (s0, s1, s2), p, -1, -1, 0, ek)
+
+
+def program5_b(tmpl: int, flav: int, k: int, L: int, o0: int, o1: int, o2: int, o3: int, o4: int,
+               s0: bool, s1: bool, s2: bool, s3: bool, s4: bool, p: int, c: int, c2: int, cm: int, ek: int) -> bool:
+    """
+    pre: 0 <= tmpl <= 4 and 0 <= flav <= (4 if tmpl == 4 else 1)
+    pre: 1 <= ek <= (2 if tmpl == 2 or tmpl == 4 else 1)
+    pre: 1 <= k <= B['k'] and 1 <= L <= k and 0 <= p <= L and -1 <= c <= L - p
+    pre: c < 0 or k <= B['ekfull']
+    pre: 0 <= cm <= B['cm'] and (c >= 0 or cm == 0)
+    pre: -1 <= c2 <= L - p and _c2_ok(tmpl, k, L, p, c, c2, cm)
+    pre: (0 <= o0 < k) if L > 0 else (o0 == 0 and not s0)
+    pre: (0 <= o1 < k) if L > 1 else (o1 == 0 and not s1)
+    pre: (0 <= o2 < k) if L > 2 else (o2 == 0 and not s2)
+    pre: (0 <= o3 < k) if L > 3 else (o3 == 0 and not s3)
+    pre: (0 <= o4 < k) if L > 4 else (o4 == 0 and not s4)
+    pre: L < 2 or o1 != o0
+    pre: L < 3 or (o2 != o0 and o2 != o1)
+    pre: L < 4 or (o3 != o0 and o3 != o1 and o3 != o2)
+    pre: L < 5 or (o4 != o0 and o4 != o1 and o4 != o2 and o4 != o3)
+    pre: (p < 2 or o0 < o1) and (p < 3 or o1 < o2) and (p < 4 or o2 < o3) and (p < 5 or o3 < o4)
+    pre: (not s0) or (L > 1 and not s1) or (L > 2 and not s2) or (L > 3 and not s3) or (L > 4 and not s4)
+    post: _
+    """
+    return _run(tmpl, flav, k, L, (o0, o1, o2, o3, o4), (s0, s1, s2, s3, s4), p, c, c2, cm, ek)
 
 
 _SEQ5 = ("k == 5 and o0 == 0 and (L < 2 or o1 == 1) and (L < 3 or o2 == 2) and (L < 4 or o3 == 3) "
@@ -479,15 +560,31 @@ def _shards(tier):
     return out
 
 
+def _shards_b(tier):
+    out = []
+    for (t, f) in PROGRAMS:
+        prog = ("tmpl == %d" % t, "flav == %d" % f)
+        if tier == "quick":
+            out.append(prog)
+        else:
+            out.append(prog + ("k <= 3",))
+            out.append(prog + ("k == 4",))
+            out.append(prog + (_SEQ5,))
+    return out
+
+
 _LABELS = ("end", "cancelled", "cancelled2")
 HARNESSES = [H(program, shards=_shards, timeout={"quick": 120}, tiers=("quick",), labels=_LABELS),
-             H(program5, shards=_shards, timeout={"thorough": 1500}, tiers=("thorough",), labels=_LABELS)]
+             H(program_b, shards=_shards_b, timeout={"quick": 120}, tiers=("quick",), labels=("end", "bexc")),
+             H(program5, shards=_shards, timeout={"thorough": 1500}, tiers=("thorough",), labels=_LABELS),
+             H(program5_b, shards=_shards_b, timeout={"thorough": 1500}, tiers=("thorough",),
+               labels=("end", "bexc"))]
 
 
-def _v(tmpl, flav, k, order, oks, p, c, cm, c2=-1, slots=3):
+def _v(tmpl, flav, k, order, oks, p, c, cm, c2=-1, slots=3, ek=None):
     o = list(order) + [0] * (slots - len(order))
     s = [bool(x) for x in oks] + [False] * (slots - len(oks))
-    return (tmpl, flav, k, len(order)) + tuple(o) + tuple(s) + (p, c, c2, cm)
+    return (tmpl, flav, k, len(order)) + tuple(o) + tuple(s) + (p, c, c2, cm) + (() if ek is None else (ek,))
 
 
 _VEC = [
@@ -501,6 +598,20 @@ _VEC = [
     dict(a=(2, 0, 3, [0, 1, 2], [1, 1, 1], 0, 0, 0), c2=0), dict(a=(2, 1, 3, [2, 1, 0], [1, 0, 1], 0, 1, 0), c2=2),
     dict(a=(3, 0, 3, [1, 0, 2], [1, 1, 1], 0, 0, 0), c2=1), dict(a=(4, 0, 3, [0, 1, 2], [1, 1, 1], 0, 0, 1), c2=0),
     dict(a=(4, 2, 3, [2, 0, 1], [0, 1, 1], 0, 1, 1), c2=1), dict(a=(4, 4, 3, [0, 1, 2], [1, 1, 0], 0, 0, 1), c2=3),
+    dict(a=(0, 0, 3, [0, 1, 2], [1, 0, 1], 3, -1, 0), ek=1), dict(a=(1, 1, 3, [1, 0, 2], [0, 1, 1], 0, -1, 0), ek=1),
+    dict(a=(2, 0, 3, [0, 1, 2], [1, 0, 1], 1, -1, 0), ek=2), dict(a=(2, 1, 3, [1, 0], [0, 1], 0, -1, 0), ek=2),
+    dict(a=(3, 0, 3, [0, 1, 2], [0, 1, 1], 0, -1, 0), ek=1), dict(a=(4, 0, 3, [0, 1, 2], [0, 1, 1], 0, -1, 0), ek=2),
+    dict(a=(4, 1, 3, [1, 0, 2], [0, 1, 1], 2, -1, 0), ek=2), dict(a=(4, 2, 3, [2, 1, 0], [0, 1, 1], 0, -1, 0), ek=1),
+    dict(a=(4, 3, 3, [0, 1, 2], [0, 0, 1], 3, -1, 0), ek=2), dict(a=(4, 4, 3, [0, 1, 2], [0, 0, 1], 0, -1, 0), ek=2),
 ]
-VECTORS = {"program": [_v(*d["a"], c2=d.get("c2", -1)) for d in _VEC],
-           "program5": [_v(*d["a"], c2=d.get("c2", -1), slots=5) for d in _VEC[::3]]}
+def _vb(d):
+    (tmpl, flav, k, order, oks, p, c, cm) = d["a"]
+    o = list(order) + [0] * (3 - len(order))
+    sk = [bool(x) for x in oks] + [False] * (3 - len(oks))
+    return (tmpl, flav, k, len(order)) + tuple(o) + tuple(sk) + (p, d["ek"])
+
+
+VECTORS = {"program": [_v(*d["a"], c2=d.get("c2", -1)) for d in _VEC if "ek" not in d],
+           "program_b": [_vb(d) for d in _VEC if "ek" in d],
+           "program5": [_v(*d["a"], c2=d.get("c2", -1), slots=5) for d in _VEC[::3] if "ek" not in d],
+           "program5_b": [_v(*d["a"], c2=d.get("c2", -1), slots=5, ek=d["ek"]) for d in _VEC if "ek" in d]}
